@@ -19,15 +19,29 @@ MAC = [0xC4, 0xE9, 0x2020, 0x2260, 0xF8FF, 0x2C7, 0x100C4]
 
 
 def cmap_lines(r, n):
-    alpha = LETTERS[:8] + [0x20, 0xC4, 0x2020, 0x1F600, 0xF041, 0xE9]
+    # the alphabet carries the boundary code points of the lookup code (P.CMAP_EDGES) besides ordinary letters, so that
+    # randomly composed fonts too have direct / U+F0xx mappings next to every constant
+    alpha = LETTERS[:8] + [0x20, 0xC4, 0x2020, 0x1F600, 0xF041, 0xE9] + [c for c in P.CMAP_EDGES if c <= 0xFFFF]
     lines = []
     for _ in range(n):
         rec = P.rand_recipe(r, alpha, outlines=True)
         ft = P.font_tokens(rec)
-        cps = alpha + [0, 0x7F, 0x80, 0xFF, 0x100, 0xF000, 0xF0FF, 0xFFFF, 0x10000, 0x10FFFF, 0x100C4, r.below(0x110000)]
+        cps = alpha + P.CMAP_EDGES + [0x100C4, r.below(0x110000)]
         lines.append(f"pl cmap {ft} {','.join(map(str, cps))}")
         gids = list(range(0, rec['ng'] + 3)) + [255, 256, 32767, 32768, 65535]
         lines.append(f"pl metrics {ft} {','.join(map(str, gids))}")
+    return lines
+
+
+def cmap_family_lines(r, n):
+    """`pl cmap` on the cmap family (P.cmap_family_recipe): every code point of U+0000..U+0101 and U+F000..U+F101 plus
+    the boundary values of every constant of the lookup code, on fonts with a Windows Symbol subtable alone / among other
+    subtables in every order / MacRoman / neither"""
+    lines = []
+    cps = ",".join(map(str, P.CMAP_DOMAIN + [c for c in P.CMAP_EDGES if c not in P.CMAP_DOMAIN]))
+    for _ in range(n):
+        _, rec = P.cmap_family_recipe(r)
+        lines.append(f"pl cmap {P.font_tokens(rec)} {cps}")
     return lines
 
 
@@ -42,7 +56,17 @@ def classify_cmap(ln, out):
         if subs != "-":
             ids = [s.split(",")[0] for s in subs.split("/")]
             if out.split()[0] != "-":
-                ks.append("chosen:" + ids[int(out.split()[0])])
+                ch = int(out.split()[0])
+                ks.append("chosen:" + ids[ch])
+                if ids[ch] == "3.0":
+                    # which of the symbol cases the request exercises (direct / aliased / unmapped, at the bound)
+                    m = dict(x.split("=") for x in subs.split("/")[ch].split(",")[1:])
+                    ks.append("symbol:position-" + str(ch) + "-of-" + str(len(ids)))
+                    for c in t[4].split(","):
+                        c = int(c)
+                        if c in (0xFE, 0xFF, 0x100):
+                            st = ("direct" if str(c) in m else "") + ("+F0xx" if str(0xF000 + c) in m else "")
+                            ks.append(f"symbol:U+{c:04X}:{st or 'unmapped'}")
     return ks
 
 
@@ -79,6 +103,23 @@ def shape_lines(r, chars, n):
     return lines
 
 
+def shape_family_lines(r, chars, n):
+    """`pl shape` (public shape()) on the cmap family: texts over the in-scope characters of U+0000..U+0101 and
+    U+F000..U+F101, every second character drawn from the boundary code points"""
+    dom = [c for c in P.CMAP_DOMAIN if chars.in_scope(c)]
+    edges = [c for c in P.CMAP_EDGES if c in dom]
+    lines = []
+    for _ in range(n):
+        _, rec = P.cmap_family_recipe(r)
+        ft = P.font_tokens(rec)
+        for _ in range(3):
+            text = [r.choice(edges) if r.chance(1, 2) else r.choice(dom) for _ in range(r.range(1, 8))]
+            cl = [2 * i + 1 for i in range(len(text))]
+            lines.append(P.shape_line(chars, ft, r.choice("lrtb"), r.choice(list(P.SCRIPTS)), r.choice([0, 0, 1, 8]),
+                                      r.below(3), text, cl))
+    return lines
+
+
 def classify_shape(ln, out):
     t = ln.split()
     ks = ["dir:" + t[4], "script:" + t[5], "level:" + t[8]]
@@ -87,6 +128,13 @@ def classify_shape(ln, out):
     ks.append("hmtx:" + ("no" if f["h"] == "-" else "yes"))
     ks.append("vmtx:" + ("no" if f["v"] == "-" else "yes"))
     ks.append("VORG:" + ("no" if f["o"] == "-" else "yes"))
+    ids = [] if f["c"] == "-" else [tuple(int(v) for v in x.split(",")[0].split(".")) for x in f["c"].split("/")]
+    chosen = next((pe for pe in P.PREF if pe in ids), None)
+    ks.append("cmap:" + ("none" if chosen is None else f"{chosen[0]}.{chosen[1]}-of-{len(ids)}"))
+    if chosen == (3, 0) and t[10] != "-":
+        low = [int(x.split(".")[0]) for x in t[10].split(",")]
+        if any(c <= 0xFF for c in low): ks.append("symbol:text-has-latin1")
+        if any(c in (0xFE, 0x100, 0xF0FF, 0xF100) for c in low): ks.append("symbol:text-at-alias-bound")
     if out.startswith("ok"):
         n_in = 0 if t[10] == "-" else len(t[10].split(","))
         n_out = int(out.split()[1])
@@ -143,6 +191,10 @@ def py_font(rec, sem=None):
     def nominal(c):
         if best is None: return None
         p, e, m = subs[best]
+        if p == 1 and c > 0x7F:
+            # Macintosh Roman subtable: indexed by the MacRoman byte (CPython's codec, independent of face.rs's table)
+            try: c = chr(c).encode("mac_roman")[0]
+            except (UnicodeEncodeError, ValueError): c = 0
         g = m.get(c)
         if g is None and (p, e) == (3, 0) and c <= 0xFF:
             g = m.get(0xF000 + c)
@@ -208,6 +260,123 @@ def default_search(ctx, shim, chars, r, n):
                     rule="shape() on generated cmap/hmtx(/vmtx/VORG/glyf bounding boxes) fonts, letters and digits that have glyphs, 4 "
                          "directions; expected = cmap glyph, input cluster, hmtx advance / -(vmtx or asc-desc), offsets "
                          "0 / (-hadv/2, -origin), reversed for RTL and BTT — computed from the recipe in python")
+
+
+def mac_encodable(c):
+    if c <= 0x7F: return True
+    try: chr(c).encode("mac_roman"); return True
+    except (UnicodeEncodeError, ValueError): return False
+
+
+def cmap_family_search(ctx, shim, chars, r, nfonts):
+    """C16_default as an executable statement on the cmap family (P.cmap_family_recipe), through the GENERIC public-API
+    `shape` command (no model scope in the way: precomposed letters such as U+00FF included).  Expected glyph = what the
+    font's preferred subtable assigns per the recipe — preference order, Windows Symbol alias U+0000..U+00FF -> U+F000+c
+    when not mapped directly, MacRoman byte for a Macintosh subtable — computed in python from the OpenType / HarfBuzz
+    rules with their documented constants, never from the crate."""
+    dom = [c for c in P.CMAP_DOMAIN if chars.p.get(c) and not chars.p[c]["di"] and not chars.is_mark(c)]
+    groups, meta = [], []
+    modes = {}
+    for f in range(nfonts):
+        mode, rec = P.cmap_family_recipe(r, outlines=True)
+        use_fb = r.chance(1, 2)
+        if use_fb:
+            for i, (p_, e_, fmt_, pairs_) in enumerate(rec["subs"]):
+                if fmt_ == 4:
+                    rec["subs"][i] = (p_, e_, fmt_, [(c, g) for c, g in pairs_ if c < 0xFFFF])
+            nominal, hadv, vadv, vorg = py_font(rec, fb_semantics)
+            hexf = fontbuild.hexfont(fb_recipe(rec))
+        else:
+            nominal, hadv, vadv, vorg = py_font(rec)
+            hexf = P.build_font(rec).hex()
+        chosen = None
+        for pe in P.PREF:
+            if any((p_, e_) == pe for p_, e_, _, _ in rec["subs"]):
+                chosen = pe; break
+        have = [c for c in dom if nominal(c) is not None and (chosen != (1, 0) or mac_encodable(c))]
+        # characters WITHOUT a glyph per the rules are rendered as .notdef (glyph 0, its metrics).  Asked only where
+        # nothing else can step in: no space fallback; a canonical decomposition (the precomposed Latin letters) always
+        # ends in a combining mark, which no font of the family maps — except through a MacRoman subtable, where every
+        # unmappable character is looked up as byte 0: Macintosh fonts are left out of this part
+        missing = [c for c in dom if nominal(c) is None and chars.p[c]["sf"] == 0 and chosen != (1, 0)]
+        if not have and not missing:
+            continue
+        edges = [c for c in P.CMAP_EDGES if c in have]
+        medges = [c for c in P.CMAP_EDGES if c in missing]
+        modes[mode] = modes.get(mode, 0) + 1
+        lines, ms = [f"font S{f} {hexf}"], []
+        for d in "lrtb":
+            for _ in range(2):
+                text = []
+                for _ in range(r.range(1, 8)):
+                    if missing and (not have or r.chance(1, 4)):
+                        text.append(r.choice(medges) if medges and r.chance(1, 2) else r.choice(missing))
+                    else:
+                        text.append(r.choice(edges) if edges and r.chance(1, 2) else r.choice(have))
+                cl = [3 * i for i in range(len(text))]
+                t = ",".join(f"{c:x}:{k}" for c, k in zip(text, cl))
+                lines.append(f"shape S{f} {d} {r.choice(list(P.SCRIPTS))} - {r.choice([0, 1, 8])} {r.below(3)} - - - {t}")
+                want, shown = [], []
+                for c, k in zip(text, cl):
+                    cc = c
+                    if d in "rb":
+                        m = chars.p[cc]["mir"]
+                        if m and nominal(m) is not None: cc = m
+                    if d in "tb":
+                        v = chars.p[cc]["vert"]
+                        if v and nominal(v) is not None: cc = v
+                    g = nominal(cc) or 0
+                    shown.append(cc)
+                    if d in "lr": want.append((g, k, hadv(g), 0, 0, 0))
+                    else: want.append((g, k, 0, vadv(g), -(hadv(g) // 2), -vorg(g)))
+                if d in "rb": want, shown = want[::-1], shown[::-1]
+                ms.append((d, text, shown, want))
+        lines.append(f"fontdrop S{f}")
+        groups.append(lines)
+        meta.append((mode, chosen, [(p_, e_, fmt_) for p_, e_, fmt_, _ in rec["subs"]], "fontbuild" if use_fb else "own", ms))
+    outs = vlib.run_groups(shim, groups, timeout=900)
+    total = reported = 0
+    per_dir = {d: 0 for d in "lrtb"}
+    aliased = 0
+    for (mode, chosen, subs, builder, ms), o, g in zip(meta, outs, groups):
+        if o[0] != "ok":
+            ctx.violation(f"generated cmap-family font rejected: {o[0]}",
+                          {"stage": "search", "stream": "default-metrics", "generator": "cmap-family", "font_line": g[0][:400]})
+            continue
+        for (d, text, shown, want), reply, req in zip(ms, o[1:], g[1:]):
+            total += 1; per_dir[d] += 1
+            if chosen == (3, 0) and any(c <= 0xFF for c in shown): aliased += 1
+            t = reply.split()
+            got = None
+            if t and t[0] == "ok":
+                got = []
+                for x in t[2:]:
+                    gid, cl, fl, xa, ya, xo, yo = (int(v) for v in x.split(":"))
+                    got.append((gid, cl, xa, ya, xo, yo))
+            if got != want and reported < 3:
+                reported += 1
+                bad = next((i for i, (a, b) in enumerate(zip(got or [], want)) if a != b), 0)
+                cp = shown[bad] if bad < len(shown) else None
+                ctx.violation(
+                    f"glyphs/positions differ from the font's cmap and metrics: cmap subtables {subs} (chosen {chosen}), "
+                    f"direction {d}, text {[hex(c) for c in text]}: output glyph {bad} "
+                    f"(U+{cp:04X}) got {got[bad] if got and bad < len(got) else reply[:80]} expected {want[bad]}",
+                    {"stage": "search", "stream": "default-metrics", "generator": "cmap-family", "mode": mode,
+                     "subtables": [list(x) for x in subs], "chosen": list(chosen) if chosen else None, "builder": builder,
+                     "direction": d, "text": [f"U+{c:04X}" for c in text], "codepoint": f"U+{cp:04X}" if cp is not None else None,
+                     "font_line": g[0], "request": req, "reply": reply[:2000], "expected": [list(x) for x in want]})
+    ctx.note_search("default-metrics-cmap-family", total, aliased, fonts_per_mode=modes, shaped_per_direction=per_dir,
+                    rule="shape() (generic public-API request) on generated fonts whose cmap has a Windows Symbol (3,0) subtable "
+                         "alone / together with 3/1, 3/10, 0/x, 1/0 and unlisted subtables in every order / a MacRoman subtable / "
+                         "neither; formats 4, 12 (0, 6 for MacRoman); each code point of U+0000..U+0101 mapped directly, only at "
+                         "U+F000+c, at both (different glyphs) or nowhere; texts over the characters of U+0000..U+0101 and "
+                         "U+F000..U+F101 (non-marks, non-default-ignorables; precomposed letters included), three out of four with a glyph "
+                         "per the rules, one without (expected .notdef; not on MacRoman fonts, not for fallback spaces), every second "
+                         "one a boundary value of a constant of the lookup code; 4 directions; "
+                         "expected = glyph of the preferred subtable (symbol alias for c <= U+00FF without direct mapping, "
+                         "MacRoman byte via python's codec), input cluster, hmtx advance / -(vmtx or asc-desc), offsets "
+                         "0 / (-hadv/2, -origin), reversed for RTL and BTT; non-trivial = a symbol font shaped a character "
+                         "<= U+00FF")
 
 
 # ----------------------------------------------------------------------------------------------
@@ -396,9 +565,11 @@ def run(ctx):
     shim = vlib.build_harness()
     chars = P.Chars(shim)
     chars.load(LETTERS + MIRROR + VERT + SPACES + CONT + MARKS0 + DI + MAC + [0x25CC])
-    P.correspond(ctx, "cmap-metrics", cmap_lines(ctx.rng("cmap"), ctx.budget(1500, 100000)), classify=classify_cmap)
-    P.correspond(ctx, "pipeline-shape", shape_lines(ctx.rng("shape"), chars, ctx.budget(600, 50000)),
-                   classify=classify_shape)
+    chars.load(P.CMAP_DOMAIN)
+    P.correspond(ctx, "cmap-metrics", cmap_lines(ctx.rng("cmap"), ctx.budget(1500, 100000))
+                 + cmap_family_lines(ctx.rng("cmapfam"), ctx.budget(400, 20000)), classify=classify_cmap)
+    P.correspond(ctx, "pipeline-shape", shape_lines(ctx.rng("shape"), chars, ctx.budget(600, 50000))
+                 + shape_family_lines(ctx.rng("shapefam"), chars, ctx.budget(250, 12000)), classify=classify_shape)
     # the value-record model behind C16_axis_value_record / _apply / _pair_apply against the crate's own Apply impls
     # (requests, canonicalisation and classification are C07's: SinglePos / PairPos with device tables on a face with ppem)
     import C07
@@ -406,6 +577,7 @@ def run(ctx):
                    classify=C07.classify_subd, canon=C07.canon)
     macroman_search(ctx, shim)
     default_search(ctx, shim, chars, ctx.rng("default"), ctx.budget(500, 40000))
+    cmap_family_search(ctx, shim, chars, ctx.rng("cmapfamsearch"), ctx.budget(250, 12000))
     gpos_axis_search(ctx, shim, ctx.rng("gposaxis"), ctx.budget(300, 20000), ctx.budget(12, 16))
     corpus_monitors(ctx, shim, ctx.rng("corpus"), ctx.budget(300, 2128))
 
@@ -417,6 +589,12 @@ def replay(ctx, rp):
         i = rp["byte"] - 0x80
         print(f"byte 0x{rp['byte']:02X}: table U+{got[i]:04X}, mac_roman U+{rp['expected']:04X}")
         return 0 if got[i] == rp["expected"] else 1
+    if rp.get("stream") == "default-metrics" and "font_line" in rp:
+        o = vlib.run_groups(shim, [[rp["font_line"], rp["request"]]], nproc=1)[0]
+        print("reply   :", o[1]); print("expected:", rp["expected"])
+        got = [(x[0], x[1], x[3], x[4], x[5], x[6]) for x in
+               (tuple(int(v) for v in g.split(":")) for g in o[1].split()[2:])] if o[1].startswith("ok") else None
+        return 0 if got == [tuple(x) for x in rp["expected"]] else 1
     if rp.get("stream") == "axis-gid16":
         o = vlib.run_groups(shim, [[rp["font_line"], rp["request"]]], nproc=1)[0]
         print("reply:", o[1])
